@@ -119,17 +119,45 @@ def _fresh(root):
 
 
 def _lock_for(variant):
-    """Takes a SHARED lock if the copy is already fresh (so that concurrent
-    checks do not wait for each other), else an exclusive one for re-creating
-    it. Returns (lockfile, fresh)."""
+    """Scratch copies are content addressed: the directory name carries a
+    digest of everything the copy is derived from, so a copy that exists and
+    is complete is never modified again. The only blocking lock is the global
+    prepare lock, held for the fraction of a second it takes to write a copy -
+    never while jobs run and never while waiting for another lock - so
+    concurrent checks (of this or of another /verif tree) cannot deadlock or
+    serialise each other. Users of a copy hold a SHARED lock on `<dir>.lock`;
+    removal takes it exclusively without blocking.
+    Returns (root, user_lock, prepare_lock, fresh); the caller populates the
+    directory if it is not fresh and then calls `_done(prepare_lock)`."""
+    import glob
     os.makedirs(SCRATCH_ROOT, exist_ok=True)
-    lock = open(os.path.join(SCRATCH_ROOT, variant + ".lock"), "w")
-    fcntl.flock(lock, fcntl.LOCK_SH)
-    if _fresh(os.path.join(SCRATCH_ROOT, variant)):
-        return lock, True
-    fcntl.flock(lock, fcntl.LOCK_UN)
-    fcntl.flock(lock, fcntl.LOCK_EX)
-    return lock, _fresh(os.path.join(SCRATCH_ROOT, variant))
+    root = os.path.join(SCRATCH_ROOT, "%s-%s" % (variant, _stamp()[:12]))
+    g = open(os.path.join(SCRATCH_ROOT, ".prepare.lock"), "w")
+    fcntl.flock(g, fcntl.LOCK_EX)
+    # garbage collection: copies of this variant for other source states
+    # that nobody uses any more
+    for d in glob.glob(os.path.join(SCRATCH_ROOT, variant + "-*")):
+        if d == root or not os.path.isdir(d):
+            continue
+        try:
+            ol = open(d + ".lock", "w")
+            fcntl.flock(ol, fcntl.LOCK_EX | fcntl.LOCK_NB)
+        except OSError:
+            continue
+        shutil.rmtree(d, ignore_errors=True)
+        try:
+            os.remove(d + ".lock")
+        except OSError:
+            pass
+        fcntl.flock(ol, fcntl.LOCK_UN)
+    u = open(root + ".lock", "w")
+    fcntl.flock(u, fcntl.LOCK_SH)
+    return root, u, g, _fresh(root)
+
+
+def _done(g):
+    fcntl.flock(g, fcntl.LOCK_UN)
+    g.close()
 
 
 def prepare(variant):
@@ -137,13 +165,12 @@ def prepare(variant):
     if variant == "kloom":
         return prepare_loom()
     v = VARIANTS[variant]
-    lock, fresh = _lock_for(variant)
-    root = os.path.join(SCRATCH_ROOT, variant)
+    root, lock, glock, fresh = _lock_for(variant)
     src = os.path.join(root, "memchr", "src")
     if fresh:
-        fcntl.flock(lock, fcntl.LOCK_SH)
+        _done(glock)
         return {"dir": root, "target_dir": os.path.join(HARNESS, "target-arch", variant), "expect": v["expect"], "rewrites": json.load(open(os.path.join(root, ".rewrites"))), "_lock": lock}
-    # Re-create the copy only where the source changed, preserving mtimes so
+    # (a partial copy left by a crashed run is completed here), preserving mtimes so
     # that cargo rebuilds exactly when /repo/src changed.
     want = {}
     for dp, _, fs in os.walk("/repo/src"):
@@ -207,9 +234,9 @@ def prepare(variant):
         shutil.copy(os.path.join(HARNESS, "Cargo.lock"), lockfile)
     json.dump(counts, open(os.path.join(root, ".rewrites"), "w"))
     open(os.path.join(root, ".stamp"), "w").write(_stamp())
-    # keep a SHARED lock while the copy is in use: other checks may use it
-    # concurrently, and only the last user removes it
-    fcntl.flock(lock, fcntl.LOCK_SH)
+    # the SHARED user lock stays while the copy is in use; only the last
+    # user removes it
+    _done(glock)
     return {
         "dir": root,
         "target_dir": os.path.join(HARNESS, "target-arch", variant),
@@ -309,11 +336,10 @@ def prepare_loom():
     change introduces anywhere in the crate is visible to the model checker
     (hook H4 covers the dispatch cells; this covers everything else)."""
     variant = "kloom"
-    lock, fresh = _lock_for(variant)
-    root = os.path.join(SCRATCH_ROOT, variant)
+    root, lock, glock, fresh = _lock_for(variant)
     src = os.path.join(root, "memchr", "src")
     if fresh:
-        fcntl.flock(lock, fcntl.LOCK_SH)
+        _done(glock)
         return {"dir": root, "target_dir": os.path.join(HARNESS, "target-arch", variant), "expect": "", "rewrites": json.load(open(os.path.join(root, ".rewrites"))), "_lock": lock}
     counts = {"rewritten_lines": 0, "statics": 0}
     want = {}
@@ -386,24 +412,36 @@ def prepare_loom():
         shutil.copy(os.path.join(HARNESS, "Cargo.lock"), lockfile)
     json.dump(counts, open(os.path.join(root, ".rewrites"), "w"))
     open(os.path.join(root, ".stamp"), "w").write(_stamp())
-    fcntl.flock(lock, fcntl.LOCK_SH)
+    _done(glock)
     return {"dir": root, "target_dir": os.path.join(HARNESS, "target-arch", variant), "expect": "", "rewrites": counts, "_lock": lock}
 
 
 def cleanup(variant, info=None):
-    """Removes the scratch copy (its build output under
+    """Removes the scratch copy this check used (its build output under
     /verif/harness/target-arch/<variant> is a cache and stays) unless another
     check still holds a shared lock on it; the last user removes it."""
-    lock = info.get("_lock") if info else None
-    if lock is not None:
+    if not info:
+        return False
+    root, lock = info["dir"], info.get("_lock")
+    g = open(os.path.join(SCRATCH_ROOT, ".prepare.lock"), "w")
+    fcntl.flock(g, fcntl.LOCK_EX)
+    try:
+        if lock is not None:
+            fcntl.flock(lock, fcntl.LOCK_UN)
+            try:
+                fcntl.flock(lock, fcntl.LOCK_EX | fcntl.LOCK_NB)
+            except OSError:
+                return False
+        shutil.rmtree(root, ignore_errors=True)
         try:
-            fcntl.flock(lock, fcntl.LOCK_EX | fcntl.LOCK_NB)
+            os.remove(root + ".lock")
         except OSError:
-            return False
-    shutil.rmtree(os.path.join(SCRATCH_ROOT, variant), ignore_errors=True)
-    if lock is not None:
-        fcntl.flock(lock, fcntl.LOCK_UN)
-    return True
+            pass
+        if lock is not None:
+            fcntl.flock(lock, fcntl.LOCK_UN)
+        return True
+    finally:
+        _done(g)
 
 
 if __name__ == "__main__":
